@@ -85,6 +85,20 @@ def bIsUint64 (x : Int) : Bool := decide (0 ≤ x) && decide (x < 2 ^ 64)
     checks `IsUint64` first, and a value outside the range is refused here instead of being truncated -/
 def goUint64 (x : Int) : Option Nat := if 0 ≤ x ∧ x < 2 ^ 64 then some x.toNat else none
 
+/-- `dict.Term` -/
+structure GTerm where
+  D : Int
+  E : Nat
+deriving Repr, DecidableEq, BEq
+
+/-- `Sum.SortByExponent` (`sort.Slice` keyed by `E`): a primitive, the insertion sort of the model
+    (`P.sortByE`); any correct sort agrees with it when the exponents are distinct, which the
+    decomposition theorems establish -/
+def insertGTerm (t : GTerm) : List GTerm → List GTerm
+  | [] => [t]
+  | u :: r => if t.E < u.E then t :: u :: r else u :: insertGTerm t r
+def sumSortByExponent (l : List GTerm) : List GTerm := l.foldr insertGTerm []
+
 /-- `new(big.Int).Mul(x, y)` -/
 def bMul (x y : Int) : Int := x * y
 
